@@ -168,7 +168,7 @@ def judge_parts(ctx, results):
         f.write("\n".join(all_lines) + "\n")
     t0 = time.time()
     bad = vlib.judge_trace(ctx, "AlgorithmsJudge", "AlgorithmsJudge.cfg", path, boundary_key=None,
-                           nchunks=max(1, min(vlib.NCPU, len(all_lines) // 10000 + 1)), timeout=1800)
+                           nchunks=max(1, len(all_lines) // 30000 + 1), timeout=1800)
     vlib.log("judged %d records in %.1fs, %d rejected" % (len(all_lines), time.time() - t0, len(bad)))
     ctx.evaluations += len(all_lines)
 
